@@ -16,6 +16,8 @@ struct Case {
     ops: Vec<QOp>,
     rule: Rule,
     q: P,
+    /// flattening tolerance handed to contains_point (irrelevant for straight paths)
+    tol: f32,
 }
 
 fn ops_str(ops: &[QOp]) -> String {
@@ -30,7 +32,7 @@ fn ops_str(ops: &[QOp]) -> String {
 }
 
 fn case_str(c: &Case) -> String {
-    format!("rule={} q={},{} ops={}", if c.rule == Rule::NonZero { "nz" } else { "eo" }, c.q.0, c.q.1, ops_str(&c.ops))
+    format!("rule={} q={},{} tol={:?} ops={}", if c.rule == Rule::NonZero { "nz" } else { "eo" }, c.q.0, c.q.1, c.tol, ops_str(&c.ops))
 }
 
 /// the raqote path in user units of half a grid step (coordinates = integer / 2)
@@ -68,7 +70,7 @@ fn eval_point(c: &Case, path: &Path, segs: &[(P, P)]) -> Result<Option<bool>, Vi
         None => return Ok(None),
     };
     let (x, y) = (c.q.0 as f32 * 0.5, c.q.1 as f32 * 0.5);
-    let got = match guard(|| path.contains_point(0.1, x, y)) {
+    let got = match guard(|| path.contains_point(c.tol, x, y)) {
         Ok(g) => g,
         Err(p) => return Err(Violation::new("contains_point/panic", case_str(c), format!("panicked: {}", p))),
     };
@@ -98,6 +100,10 @@ fn query_points() -> Vec<P> {
 }
 
 fn eval_path(run: &Run, shard: usize, l: &mut Local, ops: &[QOp], qs: &[P], with_fill: bool) {
+    eval_path_tol(run, shard, l, ops, qs, with_fill, 0.1)
+}
+
+fn eval_path_tol(run: &Run, shard: usize, l: &mut Local, ops: &[QOp], qs: &[P], with_fill: bool, tol: f32) {
     let segs = segments(ops);
     l.transitions += ops.len() as u64;
     for rule in [Rule::NonZero, Rule::EvenOdd] {
@@ -106,7 +112,7 @@ fn eval_path(run: &Run, shard: usize, l: &mut Local, ops: &[QOp], qs: &[P], with
         let mut inside = 0;
         let mut on = 0;
         for (i, &q) in qs.iter().enumerate() {
-            let c = Case { ops: ops.to_vec(), rule, q };
+            let c = Case { ops: ops.to_vec(), rule, q, tol };
             l.transitions += 1;
             match eval_point(&c, &path, &segs) {
                 Ok(Some(b)) => {
@@ -206,6 +212,107 @@ fn grid_pts(n: i32) -> Vec<(i32, i32)> {
     v
 }
 
+/// curved paths: contains_point(t, p) is "inside Path::flatten(t), or on one of its segments":
+/// every vertex of flatten(t) must be contained, and every grid point farther than 1e-3 from
+/// that polyline is decided by its f64 winding number
+fn curve_eval(path: &crate::scene::PathSpec, tol: f32, q: Option<(f32, f32)>) -> Result<(u64, u64), Violation> {
+    use crate::model::curve::{dist_outline, winding_polylines};
+    let built = path.build();
+    let case0 = format!("curve=1 tol={:?} path={}", tol, path);
+    let flat = guard(|| built.flatten(tol)).map_err(|p| Violation::new("flatten/panic", case0.clone(), p))?;
+    // closed polylines under the fill semantics
+    let mut polys: Vec<Vec<(f64, f64)>> = Vec::new();
+    let mut cur: Vec<(f64, f64)> = Vec::new();
+    let mut start: Option<(f64, f64)> = None;
+    for op in &flat.ops {
+        match *op {
+            PathOp::MoveTo(p) => {
+                if cur.len() >= 2 {
+                    polys.push(std::mem::take(&mut cur));
+                }
+                cur.clear();
+                cur.push((p.x as f64, p.y as f64));
+                start = Some((p.x as f64, p.y as f64));
+            }
+            PathOp::LineTo(p) => {
+                if cur.is_empty() {
+                    start = Some((p.x as f64, p.y as f64));
+                }
+                cur.push((p.x as f64, p.y as f64));
+            }
+            PathOp::Close => {
+                if cur.len() >= 2 {
+                    polys.push(std::mem::take(&mut cur));
+                }
+                cur.clear();
+                if let Some(s) = start {
+                    cur.push(s);
+                }
+            }
+            _ => {}
+        }
+    }
+    if cur.len() >= 2 {
+        polys.push(cur);
+    }
+    let check = |x: f32, y: f32, want: bool, clause: &str| -> Result<(), Violation> {
+        let got = guard(|| built.contains_point(tol, x, y)).map_err(|p| Violation::new("contains_point/panic", format!("{} q={:?},{:?}", case0, x, y), p))?;
+        if got != want {
+            return Err(Violation::new(format!("contains_point/curved/{}", clause), format!("{} q={:?},{:?}", case0, x, y), format!("contains_point({}, {}, {}) = {}, but the point is {} Path::flatten({})", tol, x, y, got, if clause == "vertex-of-flattened-path" { "a vertex of" } else if want { "inside" } else { "outside" }, tol)));
+        }
+        Ok(())
+    };
+    if let Some((x, y)) = q {
+        // replay of one point: decide which clause applies
+        let on_vertex = polys.iter().any(|p| p.iter().any(|v| v.0 as f32 == x && v.1 as f32 == y));
+        if on_vertex {
+            check(x, y, true, "vertex-of-flattened-path")?;
+        } else if dist_outline((x as f64, y as f64), &polys) > 1e-3 {
+            let w = winding_polylines((x as f64, y as f64), &polys);
+            let inside = if path.evenodd { w & 1 != 0 } else { w != 0 };
+            check(x, y, inside, if inside { "inside-point-reported-outside" } else { "outside-point-reported-inside" })?;
+        }
+        return Ok((0, 0));
+    }
+    let (mut nv, mut ng) = (0u64, 0u64);
+    let mut h = 0u64;
+    for poly in &polys {
+        for v in poly {
+            nv += 1;
+            check(v.0 as f32, v.1 as f32, true, "vertex-of-flattened-path")?;
+        }
+    }
+    for gy in -2..=26 {
+        for gx in -2..=26 {
+            let (x, y) = (gx as f32 * 0.5, gy as f32 * 0.5);
+            if dist_outline((x as f64, y as f64), &polys) <= 1e-3 {
+                continue;
+            }
+            let w = winding_polylines((x as f64, y as f64), &polys);
+            let inside = if path.evenodd { w & 1 != 0 } else { w != 0 };
+            ng += 1;
+            if inside {
+                h = h.rotate_left(5) ^ ((gy * 64 + gx) as u64);
+            }
+            check(x, y, inside, if inside { "inside-point-reported-outside" } else { "outside-point-reported-inside" })?;
+        }
+    }
+    Ok((h ^ nv, nv + ng))
+}
+
+fn curve_replay(m: &std::collections::BTreeMap<String, String>) -> Result<Option<Violation>, String> {
+    let tol: f32 = kv_s(m, "tol")?.parse().map_err(|e: std::num::ParseFloatError| e.to_string())?;
+    let path = crate::scene::parse_path(kv_s(m, "path")?)?;
+    let q = match m.get("q") {
+        Some(s) => {
+            let v: Vec<&str> = s.split(',').collect();
+            Some((v[0].parse::<f32>().map_err(|e| e.to_string())?, v[1].parse::<f32>().map_err(|e| e.to_string())?))
+        }
+        None => None,
+    };
+    Ok(curve_eval(&path, tol, q).err())
+}
+
 fn polygons(run: &Run, name: &str, pts: &[(i32, i32)], n: usize, close: bool, qs: &[P], with_fill: bool) {
     let np = pts.len();
     run.bound(name, format!("{}-vertex polygons over {} grid points x 2 rules x {} query points{}", n, np, qs.len(), if with_fill { " + agreement with a 4x-scaled fill" } else { "" }));
@@ -289,6 +396,65 @@ impl Check for C17 {
         let g4 = grid_pts(4);
         let g3 = grid_pts(3);
         polygons(run, "triangles 5x5", &g5, 3, false, &qs, true);
+        // straight paths do not depend on the tolerance, however large or small
+        {
+            let tols = [0.001f32, 3.0, 100.0];
+            run.bound("tolerances on straight paths", format!("triangles and closed quadrilaterals over the 3x3 grid x tolerances {:?} x 2 rules x {} query points", tols, qs.len()));
+            let np = g3.len();
+            run.par(np * np, |s, l| {
+                for k in 0..np {
+                    for k2 in 0..=np {
+                        let mut ops = vec![QOp::M(g3[s / np].0, g3[s / np].1), QOp::L(g3[s % np].0, g3[s % np].1), QOp::L(g3[k].0, g3[k].1)];
+                        if k2 < np {
+                            ops.push(QOp::L(g3[k2].0, g3[k2].1));
+                            ops.push(QOp::Z);
+                        }
+                        for &t in &tols {
+                            l.states += 1;
+                            eval_path_tol(run, 70_000 + s, l, &ops, &qs, false, t);
+                        }
+                    }
+                }
+            });
+        }
+        // curved paths at several tolerances
+        {
+            use crate::scene::{POp, PathSpec};
+            let pts: Vec<(f32, f32)> = vec![(0.7, 0.9), (9.9, 1.4), (1.2, 9.5), (10.4, 10.2), (5.3, -3.1), (13.7, 5.2)];
+            let tols: Vec<f32> = if q { vec![0.001, 0.03, 0.1, 1.0] } else { vec![0.0002, 0.001, 0.01, 0.03, 0.1, 0.5, 1.0, 4.0] };
+            run.bound("curved paths", format!("quads M a Q b c [Z] and cubics M a C b c d over {} points x {} tolerances x 2 rules: every vertex of flatten(t) is contained, every half-step grid point of [-1,13]^2 off the polyline follows its winding number", pts.len(), tols.len()));
+            let np = pts.len();
+            run.par(np * np, |s, l| {
+                let (a, b) = (pts[s / np], pts[s % np]);
+                if a == b {
+                    return;
+                }
+                for c in &pts {
+                    let mut paths = vec![PathSpec::new(vec![POp::M(a.0, a.1), POp::Q(b.0, b.1, c.0, c.1)]), PathSpec::new(vec![POp::M(a.0, a.1), POp::Q(b.0, b.1, c.0, c.1), POp::Z, POp::L(6.0, 6.5), POp::L(2.0, 7.0)])];
+                    for d in pts.iter().take(if q { 2 } else { 6 }) {
+                        paths.push(PathSpec::new(vec![POp::M(a.0, a.1), POp::C(b.0, b.1, c.0, c.1, d.0, d.1)]));
+                    }
+                    for path in paths {
+                        for eo in [false, true] {
+                            let p = PathSpec { evenodd: eo, ops: path.ops.clone() };
+                            for &t in &tols {
+                                l.states += 1;
+                                l.traces += 1;
+                                l.evals += 1;
+                                match curve_eval(&p, t, None) {
+                                    Ok((h, n)) => {
+                                        l.outcome(h);
+                                        l.transitions += n;
+                                        l.nontrivial += 1;
+                                    }
+                                    Err(v) => run.report(80_000 + s, v),
+                                }
+                            }
+                        }
+                    }
+                }
+            });
+        }
         if q {
             polygons(run, "quads 4x4", &g4, 4, true, &qs, false);
             op_strings(run, "op strings 2x2 grid", &grid_pts(2), 4, &qs);
@@ -303,13 +469,20 @@ impl Check for C17 {
 
     fn replay(&self, case: &str) -> Result<Option<Violation>, String> {
         let m = kv(case);
+        if m.contains_key("curve") {
+            return curve_replay(&m);
+        }
         let ops = parse_ops(kv_s(&m, "ops")?)?;
         let rule = if kv_s(&m, "rule")? == "nz" { Rule::NonZero } else { Rule::EvenOdd };
         if m.contains_key("fillcheck") {
             return Ok(fill_agreement(&ops, rule).err());
         }
         let qv = kv_list(&m, "q")?;
-        let c = Case { ops: ops.clone(), rule, q: (qv[0], qv[1]) };
+        let tol = match m.get("tol") {
+            Some(t) => t.parse::<f32>().map_err(|e| e.to_string())?,
+            None => 0.1,
+        };
+        let c = Case { ops: ops.clone(), rule, q: (qv[0], qv[1]), tol };
         let segs = segments(&ops);
         let path = user_path(&ops, rule);
         Ok(eval_point(&c, &path, &segs).err())
